@@ -540,4 +540,8 @@ def check(ctx, rep):
     # 'permitted lines are still fixed': the line patterns are applied to the construct that is edited (the transformers' gates), never to the
     # findings before the transformer sees them -- a finding need not sit on the line of the construct it leads to
     rule_rule_keyed(ctx, rep)
+    from .c05 import rule_pattern_verbatim
+
+    # `path:line` patterns are target-relative: a pattern rewritten on its way to file_line_patterns names another file (or none)
+    rule_pattern_verbatim(ctx, rep)
     rep.not_covered += ["fnmatch semantics of `path:line` spellings", "multi-line constructs (match_line requires start == end == line)"]
